@@ -376,6 +376,15 @@ func (ca *ConnlistAnalyzer) includePairOfWorkloads(pe *eval.PolicyEngine, src, d
 		return false
 	}
 
+	if ca.exposureAnalysis && ca.focusWorkload != "" {
+		// a representative peer is never the focus workload, even if the focus workload is named like representative pods are
+		if pe.IsRepresentativePeer(src) {
+			return ca.isPeerFocusWorkload(dst)
+		}
+		if pe.IsRepresentativePeer(dst) {
+			return ca.isPeerFocusWorkload(src)
+		}
+	}
 	// no focus-workload or at least one of src/dst should be the focus workload
 	return ca.isPeerFocusWorkload(src) || ca.isPeerFocusWorkload(dst)
 }
